@@ -15,6 +15,11 @@ build_fs() {
     (cd sim/sim_fs && quiet cargo build --release --offline --features "fmt_${fmt} macro_cfg_default") || fail "sim_fs ${fmt}"
     cp -f target/release/sim_fs "bin/sim_fs_${fmt}" || fail "copy sim_fs_${fmt}"
   done
+  # the code generator under other feature configurations (json only)
+  for v in dyn_hydrate:dynhyd dyn_ssr:dynssr; do
+    (cd sim/sim_fs && quiet cargo build --release --offline --features "fmt_json macro_cfg_${v%%:*}") || fail "sim_fs json ${v##*:}"
+    cp -f target/release/sim_fs "bin/sim_fs_json_${v##*:}" || fail "copy sim_fs_json_${v##*:}"
+  done
 }
 build_cache() {
   if [ -d sim/sim_cache ]; then
